@@ -3,6 +3,7 @@ import Mieru.Proofs.TamperKey
 import Mieru.Proofs.TamperPacket
 import Mieru.Props.C17
 import Mieru.Gen.Consts
+import Mieru.Gen.C04Tcp
 /-!
 # C04 — tampering with bytes on the wire never changes what the application reads
 
@@ -248,6 +249,30 @@ theorem tamper_protocol_numbers :
     Gen.closeSessionResponse = 5 ∧ Gen.dataClientToServer = 6 ∧ Gen.dataServerToClient = 7 ∧
     Gen.ackClientToServer = 8 ∧ Gen.ackServerToClient = 9 ∧ Gen.dataClientToServerLowEntropy = 10 ∧
     Gen.dataServerToClientLowEntropy = 11 := by decide
+
+/-- (T) The session layer of `Model/TamperKey.lean` is the code's, regenerated from the working tree by
+    tools/goextract/c04tcp.go on every run: `dirOK` is the direction test of `Session.input` for every
+    value of the protocol byte; on the stream transport a wrong direction returns an error (ends the
+    session); `inputData` takes open request / response and data; in its stream branch the in-order
+    check (with its error return) PRECEDES the counter increment and the hand-over to the application's
+    queue (`sessionRead` delivers nothing of a rejected segment); a client underlay refuses an open
+    request and a server underlay an open response (`underlayCut`); a server underlay validates its
+    first segment — open request, non-zero session id — before any dispatch. -/
+theorem stream_session_layer_is_the_code :
+    (∀ p : Fin 256, dirOK true p.val = true ↔ (p.val : Int) ∈ Gen.C04Tcp.inputDirClient) ∧
+    (∀ p : Fin 256, dirOK false p.val = true ↔ (p.val : Int) ∈ Gen.C04Tcp.inputDirServer) ∧
+    Gen.C04Tcp.inputWrongDirection =
+      ["if s.transportProtocol == common.PacketTransport { return nil }", "return stderror.ErrInvalidArgument"] ∧
+    Gen.C04Tcp.inputDataCondition =
+      "protocol == openSessionRequest || protocol == openSessionResponse || isDataProtocol(protocol)" ∧
+    Gen.C04Tcp.inputDataStreamOrder =
+      ["seq != streamNextRecv.Load() → return error", "streamNextRecv.Add(1)", "recvQueue.Insert"] ∧
+    Gen.C04Tcp.openRequestGuard = "if t.isClient { return stderror.ErrInvalidOperation }" ∧
+    Gen.C04Tcp.openResponseGuard = "if !t.isClient { return stderror.ErrInvalidOperation }" ∧
+    Gen.C04Tcp.eventLoopOrder = ["first segment: validateNewServerSessionSegment → return error", "dispatch"] ∧
+    Gen.C04Tcp.firstSegmentRejects =
+      ["seg == nil || seg.metadata == nil", "!ok || ss.Protocol() != openSessionRequest", "ss.sessionID == 0"] := by
+  refine ⟨by decide +kernel, by decide +kernel, ?_, ?_, ?_, ?_, ?_, ?_, ?_⟩ <;> decide
 
 /-! ## Packet transport -/
 
